@@ -197,6 +197,9 @@ def predicate(prop, op, il, mres, tag):
         if post[0] == "add" and kv["verify"] == "ok":
             return ("Relic.Props.C02.jar_unlisted_member_accepted", "verify fails",
                     "a member added to the signed JAR (%r) is not noticed by the verifier" % _unhex(post[1]))
+        if post[0] == "mfadd" and kv["verify"] == "ok" and f[6][0] != "1":
+            return ("Relic.Props.C02.jar_manifest_append_rejected", "verify fails (whole-manifest digest of the signature file)",
+                    "a section for a new member %r was appended to the signed manifest and the verifier still accepts" % _unhex(post[1]))
         if post[0] in ("mod", "del") and kv["verify"] == "ok" and not _unhex(post[1]).endswith(b"/"):
             return ("Relic.Props.C02.jar_listed_member_protected", "verify fails",
                     "member %r was %s after signing and the verifier still accepts" % (_unhex(post[1]), post[0]))
